@@ -130,8 +130,9 @@ func (g *Gen) drawPriceM(t *rapid.T, label string) *big.Int {
 	case 6: // random 18-digit fraction plus small integer part
 		f := rapid.Int64Range(1, 999_999_999_999_999_999).Draw(t, label+"-frac")
 		return badd(bmul(bi(int64(rapid.IntRange(0, 3).Draw(t, label+"-ip"))), E18), bi(f))
-	case 7: // around one
-		return badd(E18, bi(int64(rapid.IntRange(-1, 1).Draw(t, label+"-eps"))))
+	case 7: // an integer give or take 1e-18 (quotients by such a price come out just below / above integers)
+		k := pick(t, label+"-around", []int64{1, 1, 1, 2, 3, 4, 5, 8, 10, 100, 1000})
+		return badd(bmul(bi(k), E18), bi(int64(rapid.IntRange(-1, 1).Draw(t, label+"-eps"))))
 	case 8: // resolution limit / tiny
 		return bi(int64(rapid.IntRange(1, 1000).Draw(t, label+"-tiny")))
 	default: // large powers of ten
@@ -181,6 +182,44 @@ func (g *Gen) around(t *rapid.T, label string, x *big.Int) *big.Int {
 		v = bi(1)
 	}
 	return v
+}
+
+// roundingSensitivePay solves c*1e18 = -eps (mod pM) for a small eps >= 1: then c/p lies eps/pM below
+// an integer, which is less than 5e-19 when eps <= pM/2e18. Returns an amount that converts to at
+// most room coins (nil when the price is below 2, not invertible, or nothing fits).
+func roundingSensitivePay(pM, room *big.Int, k int) *big.Int {
+	maxEps := floorDiv(pM, bmul(bi(2), E18))
+	if maxEps.Sign() <= 0 || room.Sign() <= 0 {
+		return nil
+	}
+	inv := new(big.Int).ModInverse(new(big.Int).Mod(E18, pM), pM)
+	if inv == nil {
+		return nil
+	}
+	eps := bi(1 + int64(k)%3)
+	if eps.Cmp(maxEps) > 0 {
+		eps = bi(1)
+	}
+	c0 := new(big.Int).Mod(new(big.Int).Neg(bmul(eps, inv)), pM)
+	if c0.Sign() == 0 {
+		return nil
+	}
+	limit := bmul(badd(room, bigOne), pM) // c*1e18 < (room+1)*pM  <=>  floor(c/p) <= room
+	if bmul(c0, E18).Cmp(limit) >= 0 {
+		return nil
+	}
+	// c0 + j*pM also solves it: take one of the solutions that still fit; every third time the
+	// largest one (it converts to exactly room when truncated and to room+1 when rounded)
+	span := floorDiv(bsub(bsub(limit, bigOne), bmul(c0, E18)), bmul(pM, E18))
+	j := new(big.Int)
+	if span.Sign() > 0 {
+		if k%3 == 0 {
+			j = span
+		} else {
+			j = new(big.Int).Mod(bi(int64(k)), badd(span, bigOne))
+		}
+	}
+	return badd(c0, bmul(j, pM))
 }
 
 // ---- case prologue ---------------------------------------------------------------------------
@@ -665,6 +704,12 @@ func (g *Gen) perturbCreate(t *rapid.T, w *World, s *Snap, o *Op) {
 
 func (g *Gen) genAddAllowed(t *rapid.T, w *World, s *Snap) Op {
 	a := pick(t, "aa-auction", s.Auctions)
+	// mostly auctions that can still take bids (an entry for a settled auction changes nothing)
+	if live := auctionsWith(s, func(a *Auc) bool {
+		return a.Status == types.AuctionStatusStandBy || a.Status == types.AuctionStatusStarted
+	}); len(live) > 0 && pct(t, 75, "aa-live") {
+		a = pick(t, "aa-auction-live", live)
+	}
 	nb := Outsider
 	if g.W.Bidders > 0 && g.W.Bidders < nb {
 		nb = g.W.Bidders
@@ -838,12 +883,26 @@ func (g *Gen) genPlaceBid(t *rapid.T, w *World, s *Snap) Op {
 	o := Op{Kind: OpPlaceBid, Auction: a.ID}
 	// bidder: prefer an allow-listed one
 	allowed := s.AllowedOf(a.ID)
-	if len(allowed) == 0 && pct(t, 85, "allow-first") {
+	more := 0
+	switch len(allowed) {
+	case 0:
+		more = 85
+	case 1:
+		more = 35 // a second and third bidder: settlements with several winners, ties, refunds
+	case 2:
+		more = 15
+	}
+	if more > 0 && pct(t, more, "allow-first") {
 		// nobody can bid yet: let "another module" allow-list somebody first
 		o := g.genAddAllowed(t, w, s)
 		o.Auction = a.ID
 		if o.MaxBid != "" && bigOf(o.MaxBid).Cmp(a.SellAmt) > 0 {
 			o.MaxBid = a.SellAmt.String()
+		}
+		if o.BidderStr == "" {
+			for k := 0; k < Outsider && s.Cap(a.ID, Addrs[o.Bidder].String()) != nil; k++ {
+				o.Bidder = (o.Bidder + 1) % Outsider // somebody who is not on the list yet
+			}
 		}
 		return o
 	}
@@ -922,7 +981,12 @@ func (g *Gen) genPlaceBid(t *rapid.T, w *World, s *Snap) Op {
 		default:
 			qty = g.drawAmount(t, "fixed-qty")
 			if qty.Cmp(room) > 0 {
-				qty = g.around(t, "fixed-qty-room", room)
+				if room.Cmp(bi(4)) >= 0 && pct(t, 60, "fixed-qty-part-of-room") {
+					// a part of what is left, so that the auction stays open for other bidders
+					qty = floorDiv(room, bi(int64(rapid.IntRange(2, 9).Draw(t, "fixed-qty-div"))))
+				} else {
+					qty = g.around(t, "fixed-qty-room", room)
+				}
 			}
 		}
 		if pct(t, 50, "fixed-pay-denom") {
@@ -938,9 +1002,14 @@ func (g *Gen) genPlaceBid(t *rapid.T, w *World, s *Snap) Op {
 			if pay.Sign() <= 0 {
 				pay = bi(1)
 			}
-			if pct(t, 20, "fixed-pay-near-integer-quotient") {
+			if c := roundingSensitivePay(a.StartPriceM, room, uni(t, "fixed-pay-rs-k", 1000)); c != nil && pct(t, 60, "fixed-pay-rounding-sensitive") {
+				// an amount whose quotient by the price lies less than 5e-19 below an integer:
+				// truncating and rounding the quotient give different quantities
+				pay = c
+				g.label("bid:fixed-paying-quotient-within-5e-19-of-an-integer")
+			} else if pct(t, 20, "fixed-pay-near-integer-quotient") {
 				// among the 14 amounts from pay downwards take the one whose quotient by the price
-				// lies closest below an integer (where truncation and rounding disagree)
+				// lies closest below an integer
 				best, bestR := pay, new(big.Int)
 				for k := int64(0); k < 14; k++ {
 					c := bsub(pay, bi(k))
@@ -954,6 +1023,9 @@ func (g *Gen) genPlaceBid(t *rapid.T, w *World, s *Snap) Op {
 				}
 				pay = best
 				g.label("bid:fixed-paying-quotient-just-below-integer")
+				if bmul(bsub(a.StartPriceM, bestR), bmul(bi(2), E18)).Cmp(a.StartPriceM) <= 0 {
+					g.label("bid:fixed-paying-quotient-within-5e-19-of-an-integer")
+				}
 			}
 			o.CoinAmount = pay.String()
 			if QuoFloor(pay, a.StartPriceM).Sign() == 0 {
